@@ -1245,8 +1245,63 @@ def joint_guard(a: "Outcome", b: "Outcome", sa: SetAlg):
     lax = _length_axioms(g)
     if lax:
         g = f_and(g, *lax)
+    pax = _post_init_invariants(conds, sa)
+    if pax:
+        g = f_and(g, *pax)
     cax = class_axioms(g)
     return f_and(g, *cax) if cax else g
+
+
+_POST_INIT: dict = {}
+
+
+def _post_init_invariants(conds: list, sa: SetAlg) -> list:
+    """An object of a class EXISTS only if its `__post_init__` did not raise: for a term the guard knows to be an instance of K, the conditions under
+    which K.__post_init__ (or a base's) raises are false.  (Only straight-line raise conditions over the object's own fields are used.)"""
+    from .setalg import f_or
+
+    model = _MODEL[0]
+    if model is None:
+        return []
+
+    def parts(c):
+        if c[0] == "and":
+            for x in c[1:]:
+                yield from parts(x)
+        else:
+            yield c
+    out = []
+    seen = set()
+    for c0 in conds:
+        for c in parts(c0):
+            if not (c[0] == "isinstance" and len(c) == 3 and isinstance(c[2], tuple) and len(c[2]) == 1 and isinstance(c[2][0], str)):
+                continue
+            K = model.classes.get(c[2][0])
+            if K is None or (c[1], K.qname) in seen:
+                continue
+            seen.add((c[1], K.qname))
+            if K.qname not in _POST_INIT.setdefault(id(model), {}):
+                raises = []
+                try:
+                    m = K.find_method("__post_init__")
+                    if m is not None:
+                        from .symeval import Evaluator
+                        ev = Evaluator(model)
+                        slf = ("var", "self")
+                        ev.set_type(slf, ("cls", K.qname))
+                        for p in ev.run(m, {}, slf):
+                            if p.kind == "raise" and p.conds and not any(x[0] in ("iter-elem", "forall-not") or has_unknown(x) for x in p.conds):
+                                raises.append(tuple(p.conds))
+                except Exception:  # noqa: BLE001
+                    raises = []
+                _POST_INIT[id(model)][K.qname] = raises
+            for rc in _POST_INIT[id(model)][K.qname]:
+                try:
+                    inst = [norm_formula(sa.cond(subst(x, {("var", "self"): c[1]}))) for x in rc]
+                    out.append(f_or(f_not(norm_formula(sa.cond(c))), f_not(f_and(*inst))))
+                except Exception:  # noqa: BLE001
+                    pass
+    return out
 
 
 def _length_axioms(g) -> list:
